@@ -151,7 +151,7 @@ func (c *Canon) Render() string {
 	sb.WriteString(c.Type)
 	sb.WriteByte('\n')
 	for _, s := range c.Streams {
-		fmt.Fprintf(&sb, "%s ordered=%v %s\n", s.Key, s.TimeOrdered, renderEntries(s.Entries))
+		fmt.Fprintf(&sb, "%s %s\n", s.Key, renderEntries(s.Entries))
 	}
 	for _, s := range c.Series {
 		fmt.Fprintf(&sb, "%s %s\n", s.Key, renderPoints(s.Points))
